@@ -219,6 +219,16 @@ class SyncDriver:
             self.raised.append(exc)
             return exc
 
+    def send_batch(self, events: List[Any]) -> Optional[BaseException]:
+        try:
+            self.interp.send_events(list(events))
+            return None
+        except Exception as exc:
+            self.raised.append(exc)
+            return exc
+        finally:
+            self._touch()
+
     def stop(self) -> Optional[BaseException]:
         try:
             self.interp.stop()
@@ -285,6 +295,9 @@ class AsyncDriver:
 
     def send_obj(self, ev: Any) -> Optional[BaseException]:
         return self._call(self.interp.send(ev))
+
+    def send_batch(self, events: List[Any]) -> Optional[BaseException]:
+        return self._call(self.interp.send_events(list(events)))
 
     def stop(self) -> Optional[BaseException]:
         return self._call(self.interp.stop())
